@@ -20,15 +20,16 @@
                            failed (the future already has its result): [Consume: core.DecRef()] ; Done(1)
      include/yaclib/algo/detail/wait_event.hpp
         CallCallback::Here : Sub(1) ;  DropCallback::Here : caller.DecRef() ; Sub(1)    (lines 10-64)
-     src/algo/base_core.cpp SetResultImpl : old = exchange(word, kResult) ; if old is a callback, run it
+     src/algo/base_core.cpp SetResultImpl : old = exchange(word, kResult) ; if old is a callback, run1 it
      include/yaclib/algo/detail/base_core.hpp  Empty() : word != kResult  (Future::Ready() is its negation)
 
    The list hanging off the head word is abstracted to [Stack l] (newest first); "job.next = expected head" plus a
    successful CAS on the head pointer is the push [w :: l] (a job is pushed at most once and jobs are only ever
    removed all together by the exchange, so equal head pointers mean equal lists).  Not modelled: OneShotEvent::Call
    and Reset (documented as not thread-safe / not used by WaitGroup), a counter that wraps below zero (flagged
-   [broken]), Attach/Consume of several futures in one call or with NeedAdd=false (one future per call, implicit
-   Add), the inside of the waiter's mutex + condition variable (C18) and of the future's shared state (C01).
+   [broken]), Attach/Consume with NeedAdd=false (explicit Add before the call), the inside of the waiter's mutex +
+   condition variable (C18) and of the future's shared state (C01).  One call for several futures is the pair of
+   batch operations EFAddN / EFSubN (section "batches" below).
    WaitUntil is WaitFor (same TimedWait).
 
    Events are what the tracer sees on the real code.  No proofs in this file. *)
@@ -185,7 +186,12 @@ Inductive ev :=
 | EFRelP (j : nat)             (* DropCallback: caller.DecRef() destroys the state *)
 | EFSubP (j v : nat)           (* Call/DropCallback: Sub(1) *)
 | EFReady (j : nat) (b : bool) (* the owner of an attached future asks Ready() *)
-| EFGet (j : nat).             (* the owner reads the value *)
+| EFGet (j : nat)              (* the owner reads the value *)
+(* one Attach / Consume call for SEVERAL futures (variadic or iterator form): InsertRange does ONE Add(count) before
+   the first callback is installed, then SetCallback per future, then ONE Done(count - wait_count) for those that
+   already had their result *)
+| EFAddN (js : list nat) (v : nat)   (* Add(|js|): fetch_add, counter afterwards = v *)
+| EFSubN (js : list nat) (v : nat).  (* Done(|js|) for the futures js of the batch whose SetCallback failed *)
 
 (* ---- helpers ------------------------------------------------------------------------------------------ *)
 
@@ -477,7 +483,7 @@ Definition ev_f (e : ev) : option nat :=
   | _ => None
   end.
 
-Definition step (s : st) (e : ev) : option st :=
+Definition step1 (s : st) (e : ev) : option st :=
   match e with
   | ENewW k =>
       Some {| cnt := cnt s; uu := uu s; fired := fired s; broken := broken s; crash := crash s; uaf := uaf s;
@@ -517,6 +523,37 @@ Definition step (s : st) (e : ev) : option st :=
       end
   end.
 
+Fixpoint run1 (s : st) (tr : list ev) : option st :=
+  match tr with
+  | [] => Some s
+  | e :: r => match step1 s e with Some s' => run1 s' r | None => None end
+  end.
+
+(* ---- batches --------------------------------------------------------------------------------------------------
+   The single fetch_add(n) of a batch is n times the step "Add(1) for future j" executed without any other thread in
+   between, and the single fetch_sub(k) at the end of the call is k times the failed path's Done(1) (it returns k, i.e.
+   triggers Set, exactly when the last of these unit steps brings the counter to zero; a counter smaller than k is outside
+   the model).  [step1] is the machine of the unit steps; [step] adds the two batch operations on top of it. *)
+Fixpoint add_seq (js : list nat) (c : nat) : list ev :=
+  match js with [] => [] | j :: r => EFAdd j (S c) :: add_seq r (S c) end.
+Fixpoint sub_seq (js : list nat) (c : nat) : list ev :=
+  match js with [] => [] | j :: r => EFSubA j (c - 1) :: sub_seq r (c - 1) end.
+
+Definition step (s : st) (e : ev) : option st :=
+  match e with
+  | EFAddN js v =>
+      match js with
+      | [] => None
+      | _ => if Nat.eqb v (cnt s + length js) then run1 s (add_seq js (cnt s)) else None
+      end
+  | EFSubN js v =>
+      match js with
+      | [] => None
+      | _ => if Nat.leb (length js) (cnt s) && Nat.eqb v (cnt s - length js) then run1 s (sub_seq js (cnt s)) else None
+      end
+  | _ => step1 s e
+  end.
+
 Fixpoint run (s : st) (tr : list ev) : option st :=
   match tr with
   | [] => Some s
@@ -535,6 +572,10 @@ Fixpoint rule_from (c u : nat) (f : bool) (tr : list ev) : bool :=
       match e with
       | EAdd n _ => negb f && rule_from (c + n) (u + n) f r
       | EFAdd _ _ => negb f && rule_from (c + 1) u f r
+      | EFAddN js _ => negb f && rule_from (c + length js) u f r
+      | EFSubN js _ =>
+          Nat.leb (length js) c && negb (Nat.eqb c (length js) && f) &&
+          rule_from (c - length js) u (f || Nat.eqb c (length js)) r
       | ESub n _ =>
           negb (Nat.eqb n 0) && Nat.leb n u && Nat.leb n c && negb (Nat.eqb c n && f) &&
           rule_from (c - n) (u - n) (f || Nat.eqb c n) r
